@@ -30,6 +30,21 @@ impl Check for C14 {
         vec!["programs_compiled_and_run", "reference_compared", "api_twin_compared", "lterm_terms_compared", "tag_finite", "tag_loop-prefix", "tag_commit"]
     }
     fn run_batch(&self, tier: Tier, seed: u64) -> Option<Merged> {
+        let (cases, lterms) = Self::build_cases(tier, seed);
+        Some(run_surface_batch("C14", cases, lterms, seed, true))
+    }
+    fn run_case(&self, gen: &str, seed: u64, index: u64, tier: Tier) -> CaseOut {
+        // replay of one surface case (violation files name them `surface:<k>`)
+        if gen != "surface" {
+            return CaseOut::default();
+        }
+        let (cases, _) = Self::build_cases(tier, seed);
+        replay_case("C14", cases, index as usize, seed, true)
+    }
+}
+
+impl C14 {
+    fn build_cases(tier: Tier, seed: u64) -> (Vec<SurfCase>, Vec<LtermCase>) {
         let n = if tier == Tier::Thorough { 6000 } else { 500 };
         let mut cases = vec![];
         for i in 0..n {
@@ -49,9 +64,6 @@ impl Check for C14 {
             let depth = 1 + rng.below(3);
             lterms.push(LtermCase { term: tree_term(&mut rng, &[0, 1], depth, true) });
         }
-        Some(run_surface_batch("C14", cases, lterms, seed, true))
-    }
-    fn run_case(&self, _gen: &str, _seed: u64, _index: u64, _tier: Tier) -> CaseOut {
-        CaseOut::default()
+                (cases, lterms)
     }
 }
